@@ -650,13 +650,227 @@ func c21Judge(a *acc, rng *rand.Rand, p *c21Pkt, bufs *c21Bufs) {
 	}
 }
 
+// ---- scratch buffers and payload sizes ----
+//
+// ComputeAuthCMAC takes two scratch buffers from its caller ("must be at least
+// MACBufferSize long"; "written to outBuffer (appending, if necessary)"). What
+// the authenticator covers must not depend on them. c21Buffers takes a packet
+// through aux buffers of exactly MACBufferSize, one byte more, twice and 64 KiB,
+// holding zeros, ones, PRNG bytes or whatever the previous computation left,
+// through output buffers of several lengths and capacities, and through payload
+// lengths from 0 to beyond 3000 bytes with every length around the point where
+// authenticated header plus payload reach MACBufferSize. Every authenticator must
+// equal the reference AES-CMAC over the documented input, and flipping one bit
+// in the first, the middle, the last payload byte and in the bytes around offset
+// MACBufferSize-headerLen must change it.
+
+type c21Aux struct {
+	name string
+	buf  []byte
+}
+
+type c21BufSet struct {
+	aux   []c21Aux
+	noise []byte // PRNG bytes to fill buffers from
+	pool  []byte // PRNG bytes payloads are taken from
+}
+
+const c21MaxPld = 3400
+
+func newC21BufSet(rng *rand.Rand) *c21BufSet {
+	s := &c21BufSet{aux: []c21Aux{
+		{"macbuffersize", make([]byte, spao.MACBufferSize)},
+		{"macbuffersize+1", make([]byte, spao.MACBufferSize+1)},
+		{"2x-macbuffersize", make([]byte, 2*spao.MACBufferSize)},
+		{"64k", make([]byte, 64<<10)},
+	}}
+	s.noise = make([]byte, 4096)
+	for i := range s.noise {
+		s.noise[i] = byte(rng.Uint32()) | 1
+	}
+	s.pool = make([]byte, c21MaxPld)
+	for i := range s.pool {
+		s.pool[i] = byte(rng.Uint32())
+	}
+	return s
+}
+
+var c21AuxContents = []string{"zeros", "ones", "prng-bytes", "left-by-previous-call"}
+
+func (s *c21BufSet) fill(b []byte, kind int) {
+	switch kind {
+	case 0:
+		clear(b)
+	case 1:
+		for i := range b {
+			b[i] = 0xFF
+		}
+	case 2:
+		for o := 0; o < len(b); o += len(s.noise) {
+			copy(b[o:], s.noise)
+		}
+	}
+}
+
+var c21OutKinds = []string{"nil", "len0-cap0", "len16", "len0-cap16", "len7", "len64-prng-bytes"}
+
+func (s *c21BufSet) out(kind int) []byte {
+	switch kind {
+	case 0:
+		return nil
+	case 1:
+		return []byte{}
+	case 2:
+		return make([]byte, 16)
+	case 3:
+		return make([]byte, 0, 16)
+	case 4:
+		return []byte{1, 2, 3, 4, 5, 6, 7}
+	}
+	return append([]byte(nil), s.noise[:64]...)
+}
+
+func c21PldBucket(hdr, n, aux int) string {
+	switch {
+	case hdr+n <= spao.MACBufferSize:
+		return "header+payload-within-macbuffersize"
+	case hdr+n <= aux:
+		return "header+payload-beyond-macbuffersize-within-aux"
+	}
+	return "header+payload-beyond-aux"
+}
+
+func c21Buffers(a *acc, rng *rand.Rand, p0 *c21Pkt, bs *c21BufSet) {
+	p := p0.clone()
+	p.TC &= 0x3C // traffic classes on which every reading of "without ECN" agrees (C21:tc-bit is judged elsewhere)
+	p.Pld = nil
+	hdr := len(p.refMACInput()) // the authenticated data in front of the payload
+	b := spao.MACBufferSize - hdr
+	// payload lengths: small ones, block boundaries of the MAC, everything around b, large ones
+	var lens []int
+	seen := map[int]bool{}
+	addLen := func(n int) {
+		if n >= 0 && n <= c21MaxPld && !seen[n] {
+			seen[n] = true
+			lens = append(lens, n)
+		}
+	}
+	for _, n := range []int{0, 1, 15, 16, 17, b - 17, b - 16, b - 15, b - 2, b - 1, b, b + 1, b + 2, b + 15, b + 16, b + 17,
+		spao.MACBufferSize - 1, spao.MACBufferSize, spao.MACBufferSize + 1, 2*spao.MACBufferSize - hdr, 2*spao.MACBufferSize - hdr + 1,
+		3000, 3001 + rng.IntN(c21MaxPld-3001), b + 18 + rng.IntN(900), 18 + rng.IntN(max(b-36, 1)), rng.IntN(c21MaxPld)} {
+		addLen(n)
+	}
+	wit := func(aux c21Aux, outKind, content int, n int, extra map[string]any) map[string]any {
+		q := p.clone()
+		q.Pld = nil
+		w := map[string]any{"packet": q, "buffers": true, "aux_len": len(aux.buf), "aux_content": c21AuxContents[content],
+			"out_buffer": c21OutKinds[outKind], "payload_len": n, "authenticated_header_len": hdr}
+		for k, v := range extra {
+			w[k] = v
+		}
+		return w
+	}
+	step := 0
+	for _, n := range lens {
+		p.Pld = bs.pool[:n]
+		want, rerr := refCMAC(p.Key, p.refMACInput())
+		if rerr != nil {
+			a.incon["reference-cmac-error"]++
+			return
+		}
+		switch {
+		case n == 0:
+			a.class("buffers/payload-len=0")
+		case n < 16:
+			a.class("buffers/payload-len=1-15")
+		case n >= 3000:
+			a.class("buffers/payload-len>=3000")
+		}
+		for _, aux := range bs.aux {
+			step++
+			content, outKind := step%len(c21AuxContents), (step/len(c21AuxContents))%len(c21OutKinds)
+			bs.fill(aux.buf, content)
+			bufs := &c21Bufs{aux: aux.buf, out: bs.out(outKind)}
+			bucket := c21PldBucket(hdr, n, len(aux.buf))
+			got, err, stack := p.implMAC(bufs)
+			if stack != "" {
+				a.violation("C21:panic:"+mon.PanicSite(stack), fmt.Sprintf("ComputeAuthCMAC panicked (aux %d bytes, out %s, payload %d bytes): %v\n%s",
+					len(aux.buf), c21OutKinds[outKind], n, err, stack), wit(aux, outKind, content, n, nil))
+				continue
+			}
+			if err != nil {
+				a.violation("C21:buffers:compute-error:aux="+aux.name, fmt.Sprintf("ComputeAuthCMAC fails with an aux buffer of %d bytes, out buffer %s, payload %d bytes: %v",
+					len(aux.buf), c21OutKinds[outKind], n, err), wit(aux, outKind, content, n, nil))
+				continue
+			}
+			a.evals++
+			a.event("buffers_mac_compared")
+			a.class("buffers/aux=" + aux.name + "/" + bucket)
+			a.class("buffers/aux-content=" + c21AuxContents[content])
+			a.class("buffers/out=" + c21OutKinds[outKind])
+			if got != want {
+				a.violation("C21:buffers:mac:aux="+aux.name+":"+bucket, fmt.Sprintf(
+					"ComputeAuthCMAC with an aux buffer of %d bytes (%s), out buffer %s, %d authenticated header bytes and %d payload bytes = %x; AES-CMAC over the documented authenticated data = %x",
+					len(aux.buf), c21AuxContents[content], c21OutKinds[outKind], hdr, n, got, want),
+					wit(aux, outKind, content, n, map[string]any{"authenticator": hexs(got[:]), "reference": hexs(want[:])}))
+			} else {
+				a.event("buffers_mac_equal_reference")
+			}
+			if n == 0 {
+				continue
+			}
+			// ---- one bit of a payload byte: the authenticator must change ----
+			type at struct {
+				off    int
+				region string
+			}
+			var offs []at
+			for _, c := range []at{{b - 1, "before-boundary"}, {b, "at-boundary"}, {b + 1, "after-boundary"}, {0, "first"}, {n - 1, "last"}, {n / 2, "middle"}} {
+				dup := c.off < 0 || c.off >= n
+				for _, o := range offs {
+					dup = dup || o.off == c.off
+				}
+				if !dup {
+					offs = append(offs, c)
+				}
+			}
+			for _, o := range offs {
+				q := p.clone() // copies the payload
+				q.Pld[o.off] ^= 1 << rng.IntN(8)
+				bs.fill(aux.buf, content)
+				got2, err, stack := q.implMAC(&c21Bufs{aux: aux.buf, out: bs.out(outKind)})
+				if stack != "" || err != nil {
+					a.violation("C21:buffers:compute-error:aux="+aux.name, fmt.Sprintf("ComputeAuthCMAC fails after flipping a bit of payload byte %d of %d: %v\n%s", o.off, n, err, stack),
+						wit(aux, outKind, content, n, map[string]any{"flipped_payload_byte": o.off}))
+					continue
+				}
+				a.evals++
+				a.class("buffers/flip/aux=" + aux.name + "/payload-byte=" + o.region)
+				if got2 == got {
+					a.violation("C21:buffers:payload-byte-ignored:aux="+aux.name+":"+o.region, fmt.Sprintf(
+						"flipping a bit of payload byte %d of %d (%s; %d authenticated header bytes, aux buffer of %d bytes, MACBufferSize-headerLen = %d) leaves the authenticator at %x",
+						o.off, n, o.region, hdr, len(aux.buf), b, got),
+						wit(aux, outKind, content, n, map[string]any{"flipped_payload_byte": o.off, "authenticator": hexs(got[:])}))
+				} else {
+					a.event("buffers_flip_changes")
+				}
+			}
+		}
+	}
+}
+
 func checkC21(r *mon.Run) {
 	r.Rule = "packet = path kind (empty, SCION decoded, SCION raw, EPIC, one-hop) x SPI kind (DRKey AS-host/host-host x sender/receiver, " +
 		"non-DRKey) with PRNG field values; (1) spao.ComputeAuthCMAC compared with an RFC 4493 AES-CMAC over the MAC input laid " +
 		"out from authenticator-option.rst; (2) every single-field change (each bit of version, traffic class, flow id, next-hdr, " +
 		"path type, algorithm, timestamp, upper-layer type; sampled bits of addresses, payload, SegIDs, hop/info fields; pointers; " +
 		"router alerts; lengths) applied and the authenticator observed to change or stay; class = field x path kind x outcome, " +
-		"mac comparison per path kind x SPI kind"
+		"mac comparison per path kind x SPI kind. Buffers monitor: one packet per task of 30 (traffic class restricted to the bits all readings " +
+		"agree on) x ~25 payload lengths (0, 1, 15-17, every length within 2 and at 15-17 of MACBufferSize-headerLen, MACBufferSize+-1, " +
+		"2*MACBufferSize-headerLen, 3000, PRNG lengths up to 3400) x aux buffers of MACBufferSize, +1, 2x, 64 KiB (zeros, ones, PRNG bytes, left " +
+		"by the previous call) with rotating output buffers (nil, empty, 16, cap 16, 7, 64 bytes): authenticator = reference AES-CMAC; one bit of " +
+		"the first, middle, last payload byte and of the bytes at MACBufferSize-headerLen-1, +0, +1 flipped: authenticator changes; " +
+		"buffers/aux=<size>/<where header+payload end>"
 	r.Assumptions = []string{
 		"ECN = the two least significant traffic-class bits, DSCP = the six most significant (RFC 2474/3168)",
 		"EPIC is not described in authenticator-option.rst: PktID, PHVF and LHVF are taken as immutable path content, the embedded SCION path as for the SCION path type",
@@ -664,6 +878,7 @@ func checkC21(r *mon.Run) {
 		"reserved hop/info bits are zero in generated packets (the document does not say whether they are covered)",
 		"the HdrLen struct field and the DRKey protocol number in the SPI are observed but not judged (the statement lists them on neither side)",
 		"a collision of AES-CMAC on two different inputs (2^-128) would be misread as 'not covered'",
+		"buffers monitor: any aux buffer of at least spao.MACBufferSize bytes with any content and any output buffer (nil included: 'appending, if necessary') is a legal argument, as the doc comment of ComputeAuthCMAC says; whether the returned slice aliases the output buffer is not judged",
 	}
 	if err := refCMACSelfTest(); err != nil {
 		fmt.Println("C21:", err)
@@ -694,6 +909,7 @@ func checkC21(r *mon.Run) {
 		}
 		a := newAcc()
 		c21Judge(a, r.Rand("replay"), &p, &c21Bufs{aux: make([]byte, spao.MACBufferSize), out: make([]byte, 16)})
+		c21Buffers(a, r.Rand("replay/buffers"), &p, newC21BufSet(r.Rand("replay/bufset")))
 		a.sample(p)
 		a.class("replay")
 		a.flush(r)
@@ -705,9 +921,18 @@ func checkC21(r *mon.Run) {
 	runTasks(r, (n+chunk-1)/chunk, func(t int, a *acc) {
 		rng := r.Rand(fmt.Sprintf("c21/%d", t))
 		bufs := &c21Bufs{aux: make([]byte, spao.MACBufferSize), out: make([]byte, 16)}
+		brng := r.Rand(fmt.Sprintf("c21/buffers/%d", t))
+		var bs *c21BufSet
 		for i := t * chunk; i < (t+1)*chunk && i < n; i++ {
 			p := c21Gen(rng, i)
 			c21Judge(a, rng, p, bufs)
+			if i == t*chunk+t%chunk { // one packet per task; path and SPI kinds rotate with t
+				if bs == nil {
+					bs = newC21BufSet(brng)
+				}
+				c21Buffers(a, brng, p, bs)
+				a.class("buffers/path=" + p.PathKind)
+			}
 			if i%601 == 7 {
 				s := p.clone()
 				if len(s.Pld) > 32 {
@@ -720,7 +945,8 @@ func checkC21(r *mon.Run) {
 			}
 		}
 	})
-	need := []string{"mac_compared", "mac_equal_reference", "field_must-stay_stays", "field_must-change_changes"}
+	need := []string{"mac_compared", "mac_equal_reference", "field_must-stay_stays", "field_must-change_changes",
+		"buffers_mac_compared", "buffers_mac_equal_reference", "buffers_flip_changes"}
 	r.Require(int64(n)*100, 120, need...)
 	var cls []string
 	for _, pk := range c21PathKinds {
@@ -729,4 +955,26 @@ func checkC21(r *mon.Run) {
 		}
 	}
 	r.RequireClasses(cls...)
+	for _, aux := range []string{"macbuffersize", "macbuffersize+1", "2x-macbuffersize", "64k"} {
+		r.RequireClasses("buffers/aux=" + aux + "/header+payload-within-macbuffersize")
+		if aux != "macbuffersize" {
+			r.RequireClasses("buffers/aux=" + aux + "/header+payload-beyond-macbuffersize-within-aux")
+		}
+		if aux != "64k" {
+			r.RequireClasses("buffers/aux=" + aux + "/header+payload-beyond-aux")
+		}
+		for _, reg := range []string{"first", "middle", "last", "before-boundary", "at-boundary", "after-boundary"} {
+			r.RequireClasses("buffers/flip/aux=" + aux + "/payload-byte=" + reg)
+		}
+	}
+	for _, k := range c21AuxContents {
+		r.RequireClasses("buffers/aux-content=" + k)
+	}
+	for _, k := range c21OutKinds {
+		r.RequireClasses("buffers/out=" + k)
+	}
+	for _, k := range c21PathKinds {
+		r.RequireClasses("buffers/path=" + k)
+	}
+	r.RequireClasses("buffers/payload-len=0", "buffers/payload-len=1-15", "buffers/payload-len>=3000")
 }
